@@ -13,7 +13,7 @@ import (
 // C09: downstream failures are contained and reported, never masked.
 
 // failure signals: the answer itself says "this failed" => errors must be non-empty
-var c09Signals = []string{"transport", "transport-eof", "transport-reset", "trailing-garbage", "glued", "errors-empty-datanull", "status500", "status500-validbody", "notjson", "object", "short", "long", "empty", "errors1", "errors2", "errors-nocode", "errors-noext", "datanull", "nodata",
+var c09Signals = []string{"transport", "transport-eof", "transport-reset", "trailing-garbage", "glued", "errors-empty-datanull", "status500", "status500-validbody", "notjson", "object", "short", "long", "empty", "errors1", "errors2", "errors-nocode", "errors-noext", "errors-null1", "errors-null-nodata", "errors-null2-data", "datanull", "nodata",
 	"nonode", "nodestring", "nodelist", "nodenumber"}
 
 // shape faults: values whose shape contradicts the schema => contained, nothing invented
@@ -94,8 +94,8 @@ func init() {
 	Props["C09"] = &Prop{
 		ID:    "C09",
 		Level: "fault_enumeration",
-		Rule: "case = (world, operation with <=K fields, fault kind, position = (index of the downstream HTTP call in the execution, index inside that call's batch)); fault alphabet: 16 failure signals " +
-			"(transport error, status 500 with an error body and with a well-formed answer as body, non-JSON body, object instead of array, array short/long/empty, errors x1/x2, data null, no data, node missing/string/list/number) and 10 schema-contradicting shapes " +
+		Rule: "case = (world, operation with <=K fields, fault kind, position = (index of the downstream HTTP call in the execution, index inside that call's batch)); fault alphabet: 25 failure signals " +
+			"(transport error, status 500 with an error body and with a well-formed answer as body, non-JSON body, object instead of array, array short/long/empty, errors x1/x2, errors without code / without extensions, errors lists of null entries (with null, without and with data), connection broken or reset after the call arrived, trailing garbage, two answers glued, empty errors list with null data, data null, no data, node missing/string/list/number) and 10 schema-contradicting shapes " +
 			"(list entry scalar/null, scalar, list or empty list for object, object or null for list, entity without id, foreign id, null scalar); thorough adds ordered pairs of faults; oracle: process alive, handler returned, " +
 			"well-formed envelope, failure signals => errors non-empty, no value in data that no service returned, and a follow-up request on the same gateway equals its reference; non-trivial = the fault hit a sub-request",
 		Assumptions: []string{"single faults (thorough: pairs) on the in-memory transport; operations through the root node() entry point are excluded (C01 finding)",
